@@ -20,7 +20,8 @@ CONSTANT MaxCalls, EmitRows
 BoundarySeeds == { B("0"), B("1"), B("2"), B("12345"), B("8589934591"), B("8589934592"), B("8589934593"),
                    B("8796093022208"), B("11081109438221"), B("11081109438222"), B("11081109438223"),
                    B("17592186044416"), B("9223372036854775808"), B("18446744073709551615"),
-                   B("4294967296"), B("5160"), B("5161") }
+                   B("4294967296"), B("5160"), B("5161"),
+                   B("4929753061"), B("4150723358") }      \* the one state whose successor is 0 (RND then returns exactly 0), and its predecessor
 Signs == {"pos", "zero", "neg"}          \* in every position of a sequence
 Extras == ArgNames \ Signs              \* fractional, huge, signed-zero and non-finite arguments: at most one per sequence, in any position
 
